@@ -76,11 +76,13 @@ pub const BAD_TEMPLATES: &[&str] = &[
 ];
 pub const BAD_NUMS: &[&str] = &["-1", "4294967296", "18446744073709551616", "99999999999999999999999", "1e3", "0x10", " 5", "5 ", "+5", "", "abc", "1.5", "٣", "{{ major }}", "{{ distance }}", "{{ 1+1 }}", "{{", "none", "null", "-9223372036854775808", "9223372036854775807"];
 pub const BAD_RON: &[&str] = &[
+    
     "", "(", "()", "(core:[])", "(core:[], extra_core:[], build:[])", "(core:[var(Major)], extra_core:[], build:[var(Major)])", "(core:[var(Patch), var(Major)], extra_core:[], build:[])",
     "(core:[var(Epoch)], extra_core:[], build:[])", "(core:[], extra_core:[var(Post), var(Post)], build:[])", "(core:[var(ts(\"nope\"))], extra_core:[], build:[])",
     "(core:[var(ts(\"%Q\"))], extra_core:[], build:[])", "(core:[var(custom(\"\"))], extra_core:[], build:[])", "(core:[str(\"é\"), uint(18446744073709551615)], extra_core:[], build:[])",
     "(core:[uint(-1)], extra_core:[], build:[])", "(core:[uint(18446744073709551616)], extra_core:[], build:[])", "[1,2,3]", "\u{feff}(core:[var(Major)],extra_core:[],build:[])",
-    "(core:[var(Major)], extra_core:[], build:[], precedence_order:[])", "(core:[var(Major)], extra_core:[], build:[], precedence_order:[Major, Major])", "(core:[var(Nope)], extra_core:[], build:[])",
+    "(core:[var(Major)], extra_core:[], build:[], precedence_order:[])", "(core:[var(Major),var(Minor),var(Patch)], extra_core:[var(Post)], build:[], precedence_order:[Core,ExtraCore,Build])",
+    "(core:[var(Major),uint(3)], extra_core:[var(PreRelease),var(Dev)], build:[], precedence_order:[Dev,Core,Major])", "(core:[var(Major)], extra_core:[], build:[], precedence_order:[Major, Major])", "(core:[var(Nope)], extra_core:[], build:[])",
 ];
 pub const BAD_RULES: &[&str] = &[
     "", "[", "[]", "[(pattern: \"*\", pre_release_label: alpha, post_mode: commit)]", "[(pattern: \"x\", pre_release_label: alpha, post_mode: commit)]",
@@ -108,7 +110,7 @@ pub fn value_for(kind: Kind) -> BoxedStrategy<Option<String>> {
             let items: Vec<String> = items.iter().map(|s| s.to_string()).collect();
             s(prop_oneof![6 => super::pick_vec(items), 1 => text::tame()].boxed())
         }
-        Kind::SchemaRon => s(prop_oneof![3 => zervgen::valid_schema().prop_map(|s| s.to_ron()), 2 => pick(BAD_RON).prop_map(String::from)].boxed()),
+        Kind::SchemaRon => s(prop_oneof![3 => zervgen::valid_schema_p().prop_map(|s| s.to_ron()), 2 => pick(BAD_RON).prop_map(String::from)].boxed()),
         Kind::Template => s(prop_oneof![2 => pick(BAD_TEMPLATES).prop_map(String::from), 1 => pick(&["{{ semver }}", "v{{ major }}.{{ minor }}", "{{ pep440 }}+{{ bumped_commit_hash_short }}", "{{ hash_int(value=bumped_branch, length=5) }}"]).prop_map(String::from), 1 => text::nasty()].boxed()),
         Kind::Rules => s(prop_oneof![1 => pick(BAD_RULES).prop_map(String::from), 1 => text::tame()].boxed()),
         Kind::Dir => s(pick(&["/nonexistent", "/", "/tmp", ".", "", "/etc/passwd", "relative/path"]).prop_map(String::from).boxed()),
@@ -134,7 +136,7 @@ pub fn to_argv(flags: &[(String, Option<String>)]) -> Vec<String> {
 pub fn stdin_content() -> BoxedStrategy<Option<String>> {
     prop_oneof![
         3 => Just(None),
-        4 => zervgen::mzerv(true).prop_map(|z| z.to_zerv().ok().map(|z| z.to_string())),
+        4 => zervgen::mzerv_p(true).prop_map(|z| z.to_zerv().ok().map(|z| z.to_string())),
         2 => (zervgen::mzerv(true), any::<prop::sample::Index>()).prop_map(|(z, at)| z.to_zerv().ok().map(|z| { let s = z.to_string(); let mut cut = at.index(s.len() + 1); while !s.is_char_boundary(cut) { cut -= 1; } s[..cut].to_string() })),
         2 => (zervgen::mzerv(true), any::<prop::sample::Index>(), pick(&["(", ")", "\"", "Some(", "None", "\\", "é", "-1", "99999999999999999999", ",", "[", "]", "\u{0}"])).prop_map(|(z, at, ins)| z.to_zerv().ok().map(|z| { let s = z.to_string(); let mut cut = at.index(s.len() + 1); while !s.is_char_boundary(cut) { cut -= 1; } format!("{}{}{}", &s[..cut], ins, &s[cut..]) })),
         1 => pick(BAD_RON).prop_map(|s| Some(s.to_string())),
